@@ -406,6 +406,14 @@ inline bool judge(const char* clause_name, double err, double tol, const std::fu
 		violation(key ? key : clause_name, clause_name, d);
 		return false;
 	}
+	// development aid: VERIF_DEBUG_RATIO=<r> writes out every judged observation with err/tol above r (not a verdict)
+	static const double dbg = getenv("VERIF_DEBUG_RATIO") ? atof(getenv("VERIF_DEBUG_RATIO")) : -1.0;
+	if(dbg >= 0 && ratio > dbg)
+	{
+		J j;
+		j.str("t", "debug").str("clause", clause_name).str("gen", cur().gen).i("index", (long long) cur().index).num("ratio", ratio).raw("observation", detail().obj());
+		emit(j.obj());
+	}
 	return true;
 }
 // Boolean clause
